@@ -108,6 +108,10 @@ class NodeData(Model):
     def __init__(self, t):
         self.t = t
 
+    def m___len__(self, I):
+        # one entry per clone, plus the outlier key where the dictionary has one (it appears with the first outlier or the first read of tree.outliers)
+        return self.t.K + (1 if self.t.outlier_key else 0)
+
     def m_items(self, I):
         t = self.t
 
